@@ -55,7 +55,10 @@ ScenariosOf(h) ==
               ELSE {W("signCert", "untrusted_with_ca")}) \cup
   {W("signKey", "wrong"), [NV EXCEPT !.signKey = "wrong"]} \cup
   (IF HasSKE(h) THEN
-     {W("ske", k) : k \in {"omitted", "otherrandoms", "badsig"} \cup (IF Dual(h) THEN {"otherenccert"} ELSE {})} \cup
+     {W("ske", k) : k \in {"omitted", "otherrandoms", "badsig"} \cup
+                        \* (GMSSL, made by the signer itself, so the transcript stays consistent) the right signature in a form that is
+                        \* not SEQUENCE { r, s }: a byte appended behind it / a third INTEGER inside it
+                        (IF Dual(h) THEN {"otherenccert", "trailing", "extraint"} ELSE {})} \cup
      \* a recorded ServerKeyExchange replayed in a session that shares ONE of the two randoms with the recorded one (the
      \* attacker picks its own server random; a client may be fed a repeating random source): the signature covers both
      {W2("signKey", "wrong", "ske", k) : k \in {"same_server_random", "same_client_random"}} \cup
@@ -70,6 +73,7 @@ ScenariosOf(h) ==
   UNION {
     {[CA(p) EXCEPT !.cliCert = k] : k \in {"untrusted", "expired", "notyet", "none"}} \cup
     {[CA(p) EXCEPT !.cliKey = "wrong"], [CA(p) EXCEPT !.cv = "othersession"]} \cup
+    (IF Dual(h) THEN {[CA(p) EXCEPT !.cv = "trailing"]} ELSE {}) \cup
     \* the client sends further certificates after its own: harmless with its own key, but possession must be proven
     \* for the FIRST certificate (the identity the server reports), not for any later one
     {[CA(p) EXCEPT !.cliCert = "good_then_other"], [CA(p) EXCEPT !.cliCert = "good_then_other", !.cliKey = "of_other"]}
